@@ -60,11 +60,11 @@ CHECKS = {
          "Trusts jiff's Timestamp construction from nanoseconds; Time::valid_now() is exercised with whole-day margins only.",
          "property-based testing (proptest) against an independent evaluator of generated validator expressions", "DESIGN.md §5 C11"),
  "C14": ("pv-harness", "exploration",
-         "Generated RegisteredClaims round-trip field-wise; the wire form is checked with a generic JSON parser and an own strict RFC 3339 reader; generated JSON texts (extras, order, duplicates, nulls, wrong types, offsets, fractions) are decoded differentially against serde_json::Value with instants computed by the generator; Json<T> is compared with serde_json directly.",
+         "Generated RegisteredClaims round-trip field-wise (directly and flattened into a user struct); the wire form is checked with a generic JSON parser and an own strict RFC 3339 reader; generated JSON texts (extras, order, duplicates, nulls, wrong types, offsets, fractions) are decoded differentially against serde_json::Value with instants computed by the generator; Json<T> is compared with serde_json directly.",
          "Trusts serde_json::Value as the generic parser; leap seconds are not generated.",
          "property-based round-trip + differential testing (proptest) against a generic JSON parser", "DESIGN.md §5 C14"),
  "C04": ("pv-harness", "exploration",
-         "Structured generated-input search offered to every parser of every back end with follow-up use of whatever parses, in child processes (panic = violation keyed by source location; dead process = violation); enumerates every decoded length 0..700 under every header and the key-shape catalogue; thorough adds coverage-guided libFuzzer + AddressSanitizer campaigns over the same entry function.",
+         "Structured generated-input search offered to every parser of every back end with follow-up use of whatever parses, in child processes (panic = violation keyed by source location; dead process = violation); enumerates every decoded length 0..700 under every header and the key-shape catalogue; authentic tokens carrying hostile message / footer bytes are read through every typed payload / footer pair; thorough adds coverage-guided libFuzzer + AddressSanitizer campaigns over the same entry function.",
          "PBKW inputs beyond the stated KDF budget are skipped (counted). aws-lc and libsodium are uninstrumented C in the quick tier; the fuzz build adds ASan to the Rust side and the FFI boundary.",
          "property-based testing (proptest) + enumeration in isolated child processes; coverage-guided fuzzing (libFuzzer+ASan) in the thorough tier", "DESIGN.md §5 C04"),
  "C16": ("pv-harness", "fault_enumeration",
@@ -72,7 +72,7 @@ CHECKS = {
          "aws-lc, libsodium and rsa::OsRng draw outside getrandom 0.3 and cannot be failed in-process: only the history part applies to them.",
          "stateful history checking + exhaustive RNG fault injection through a custom getrandom backend", "DESIGN.md §5 C16, §3.4"),
  "C17": ("pv-harness", "exploration",
-         "Generated thread plans (1..16 real threads, mixed succeeding/failing operations, clone/drop overlap) against a sequential model, in child processes so crashes are observed; probes after every plan show failed operations did not alter the shared keys.",
+         "Generated thread plans (1..16 real threads, mixed succeeding/failing operations, clone/drop overlap) against a sequential model, in child processes so crashes are observed; probes after every plan show failed operations did not alter the shared keys. Plans are supervised: an operation that has not returned for 60 s is classified through /proc (spinning / blocked) and re-run on fresh keys in a fresh process; only if it returns there is the non-return a violation, anything else is inconclusive (exit 2).",
          "Interleavings are sampled by the OS scheduler (stress, not enumeration). The thorough tier re-runs the plans in a ThreadSanitizer build (rustc -Zsanitizer=thread, -Zbuild-std): a race report with a frame in library code is a violation; aws-lc / libsodium C code is not instrumented.",
          "model-based stress testing of generated concurrent plans (proptest) with a sequential oracle; ThreadSanitizer build of the same plans in the thorough tier", "DESIGN.md §5 C17"),
  "C18": ("progs", "exploration",
